@@ -9,6 +9,7 @@
 //   sup                                            -> ok <tlName>=1 | <tlName>=0:<why> ; ...        (CreateValue under recover)
 //   rw1 <san> <tid> <tlName> <boxed> <hex>         -> ok <consumed> <rewritten hex | writeerr> | eof | reject | unsupported
 //   rw2 <tlName> <hex>                             -> ok <consumed> <rewritten hex> | reject | unsupported
+//   c12 <tlName> <tl1 boxed hex>                   -> ok <the value written as TL2> | reject | unsupported
 // a per-operation watchdog (VERIF_OTF_WATCHDOG_MS, default 8000) writes `crash watchdog` and exits.
 package onthefly
 
@@ -137,6 +138,21 @@ func (o *vOtf) run(f []string) (out string) {
 			return "ok " + consumed + " writeerr"
 		}
 		return "ok " + consumed + " " + vHx(w)
+	case "c12": // c12 <tlName> <tl1 boxed hex>: ReadTL1Boxed, then WriteTL2 -> ok <tl2 hex> | reject | unsupported
+		ins := o.tops[f[1]]
+		if ins == nil {
+			return "unsupported no-instance"
+		}
+		val, why := vCreate(ins)
+		if val == nil {
+			return "unsupported " + why
+		}
+		if _, _, err := val.ReadTL1(vUnhex(f[2]), nil, false, nil); err != nil {
+			return "reject"
+		}
+		var bb ByteBuilder
+		val.WriteTL2(&bb, false, false, 0, nil)
+		return "ok " + vHx(bb.Buf())
 	case "rw2":
 		ins := o.tops[f[1]]
 		if ins == nil {
